@@ -303,12 +303,22 @@ func decodeValue(dec valueDecoder, param string, sm *openapi3.SerializationMetho
 	}
 
 	if len(schema.Value.AnyOf) > 0 {
+		// the alternative that accepts what it made of the text decides; failing that, the first that made anything of it
+		var first any
 		for _, sr := range schema.Value.AnyOf {
 			value, f, _ := decodeValue(dec, param, sm, sr, required)
 			found = found || f
 			if !noValueDecoded(value) {
-				return value, found, nil
+				if sr.Value.VisitJSON(value) == nil {
+					return value, found, nil
+				}
+				if first == nil {
+					first = value
+				}
 			}
+		}
+		if first != nil {
+			return first, found, nil
 		}
 		if required && found {
 			return nil, found, fmt.Errorf("decoding anyOf for parameter %q failed", param)
@@ -319,11 +329,17 @@ func decodeValue(dec valueDecoder, param string, sm *openapi3.SerializationMetho
 	if len(schema.Value.OneOf) > 0 {
 		isMatched := 0
 		var value any
+		accepted := false
 		for _, sr := range schema.Value.OneOf {
 			v, f, _ := decodeValue(dec, param, sm, sr, required)
 			found = found || f
 			if !noValueDecoded(v) {
-				value = v
+				// an alternative that accepts what it made of the text is preferred to one that does not
+				// (failing that, the first that made anything of it, as for anyOf)
+				if ok := sr.Value.VisitJSON(v) == nil; (ok && !accepted) || value == nil {
+					value = v
+					accepted = accepted || ok
+				}
 				isMatched++
 			}
 		}
